@@ -58,24 +58,45 @@ struct Shared {
     target: [usize; 2],
     exit: AtomicBool,
     polls: [AtomicU64; 3],
+    /// the next task poll submits three operations into a submission queue of two entries (push_raw overflow)
+    overflow_next: AtomicBool,
 }
 
 /// The future of target `me`: registers its waker, observes the conditions of its wakers.
+type PendingOp = Pin<Box<dyn Future<Output = ()>>>;
+
 struct Probe {
     sh: Arc<Shared>,
     me: usize,
+    /// operations submitted by overflowing polls, kept pending (their descriptor never becomes readable)
+    ops: Vec<PendingOp>,
+    idle_fd: Option<compio_driver::SharedFd<std::os::fd::OwnedFd>>,
 }
 
 impl Future for Probe {
     type Output = ();
 
-    fn poll(self: Pin<&mut Self>, cx: &mut Context<'_>) -> Poll<()> {
-        let sh = &self.sh;
+    fn poll(mut self: Pin<&mut Self>, cx: &mut Context<'_>) -> Poll<()> {
+        let sh = self.sh.clone();
+        let sh = &sh;
         sh.polls[self.me].fetch_add(1, Ordering::SeqCst);
         *sh.wakers[self.me].lock().unwrap() = Some(cx.waker().clone());
         for w in 0..2 {
             if sh.target[w] == self.me && sh.cond[w].load(Ordering::SeqCst) {
                 sh.seen[w].store(true, Ordering::SeqCst);
+            }
+        }
+        // the model polls the task (registers the waker, observes the conditions) and THEN overflows the queue
+        if self.me != 0 && self.sh.overflow_next.swap(false, Ordering::SeqCst) {
+            if let Some(fd) = self.idle_fd.clone() {
+                for _ in 0..3 {
+                    let fd = fd.clone();
+                    let mut f: PendingOp = Box::pin(async move {
+                        let _ = compio_runtime::submit(compio_driver::op::PollOnce::new(fd, compio_driver::op::Interest::Readable)).await;
+                    });
+                    let _ = f.as_mut().poll(cx);
+                    self.ops.push(f);
+                }
             }
         }
         if sh.exit.load(Ordering::SeqCst) { Poll::Ready(()) } else { Poll::Pending }
@@ -96,6 +117,7 @@ fn run_case(case: &Value, rep: &mut Report) {
     let mode = case["mode"].as_str().unwrap().to_string();
     let qcap = case["qcap"].as_u64().unwrap() as usize;
     let ntasks = case["tasks"].as_array().unwrap().len();
+    let overflow = case["steps"].as_array().unwrap().iter().any(|s| s["act"] == "RRunTaskOv") || case.get("overflow").and_then(|v| v.as_bool()).unwrap_or(false);
     let targets = [
         tgt_index(case["targets"]["w1"].as_str().unwrap()),
         tgt_index(case["targets"]["w2"].as_str().unwrap()),
@@ -107,6 +129,7 @@ fn run_case(case: &Value, rep: &mut Report) {
         target: targets,
         exit: AtomicBool::new(false),
         polls: [AtomicU64::new(0), AtomicU64::new(0), AtomicU64::new(0)],
+        overflow_next: AtomicBool::new(false),
     });
     ctl::reset(3, SITES);
 
@@ -117,23 +140,36 @@ fn run_case(case: &Value, rep: &mut Report) {
     let rt_thread = std::thread::spawn(move || {
         let mut pb = ProactorBuilder::new();
         pb.driver_type(if drv == "poll" { DriverType::Poll } else { DriverType::IoUring });
+        if overflow {
+            // two SQ entries: an overflowing poll submits three operations (exactly one push_raw overflow)
+            pb.capacity(2);
+        }
+        // a pipe whose read end never becomes readable (the write end stays open in this thread)
+        let (idle_r, _idle_w) = {
+            let mut fds = [0i32; 2];
+            let r = unsafe { libc::pipe2(fds.as_mut_ptr(), libc::O_NONBLOCK | libc::O_CLOEXEC) };
+            assert_eq!(r, 0);
+            use std::os::fd::FromRawFd;
+            unsafe { (std::os::fd::OwnedFd::from_raw_fd(fds[0]), std::os::fd::OwnedFd::from_raw_fd(fds[1])) }
+        };
+        let idle_fd = Some(compio_driver::SharedFd::new(idle_r));
         let rt = Runtime::builder().with_proactor(pb).sync_queue_size(qcap).build().expect("runtime");
         // the tasks exist (scheduled, hot) before the loop starts, as in the model's initial state
         let mut handles = vec![];
         for t in 0..ntasks {
-            let p = Probe { sh: sh_r.clone(), me: t + 1 };
+            let p = Probe { sh: sh_r.clone(), me: t + 1, ops: vec![], idle_fd: idle_fd.clone() };
             handles.push(rt.enter(|| rt.spawn(p)));
         }
         ctl::register(0);
         if mode_r == "block_on" {
-            rt.block_on(Probe { sh: sh_r.clone(), me: 0 });
+            rt.block_on(Probe { sh: sh_r.clone(), me: 0, ops: vec![], idle_fd: None });
         } else {
             // external event loop in the style of compio-compat: poll the main future, run the tasks,
             // flush, wait for the driver's descriptor, poll_with(0)
             use std::os::fd::AsRawFd;
             let waker = rt.waker();
             let mut cx = Context::from_waker(&waker);
-            let mut main = std::pin::pin!(Probe { sh: sh_r.clone(), me: 0 });
+            let mut main = std::pin::pin!(Probe { sh: sh_r.clone(), me: 0, ops: vec![], idle_fd: None });
             rt.enter(|| {
                 loop {
                     ctl::point("rt.poll_main", 0, 0);
@@ -202,6 +238,9 @@ fn run_case(case: &Value, rep: &mut Report) {
         let wait_ms = if role == 0 && r_in_kernel { 5_000 } else { 10_000 };
         match ctl::wait_parked(role, wait_ms) {
             Some(a) if a.site == site => {
+                if act == "RRunTaskOv" {
+                    sh.overflow_next.store(true, Ordering::SeqCst);
+                }
                 ctl::grant(role);
                 executed += 1;
                 if role == 0 {
